@@ -32,6 +32,20 @@ Check C15_rewrite_url :
     from_rel_link_url (to_rel_link_url K D) D = K.
 Print Assumptions C15_rewrite_url.
 
+(* the same law on the url as it is written: no hypothesis on the key *)
+Theorem C15_rewrite_written :
+  forall u D ext : string,
+    ext = MD \/ ext = "" ->
+    let K := from_rel_link_url u D in
+    from_rel_link_url (ref_url (to_rel_link_url K D) ext) D = K.
+Proof. exact RelPathLaws.C15_rewrite_written. Qed.
+Check C15_rewrite_written :
+  forall u D ext : string,
+    ext = MD \/ ext = "" ->
+    let K := from_rel_link_url u D in
+    from_rel_link_url (ref_url (to_rel_link_url K D) ext) D = K.
+Print Assumptions C15_rewrite_written.
+
 Theorem C15_rewrite_md_refuted :
   exists u D, let K := from_rel_link_url u D in
     ends_with MD K = true /\ from_rel_link_url (to_rel_link_url K D) D <> K.
@@ -89,6 +103,29 @@ Check C15_roundtrip_b :
     from_rel_link_url (to_rel_link_url K D) D = K.
 Print Assumptions C15_roundtrip_b.
 
+(* sub-properties 1 and 3 for the url as it is written (`ref_url`): no `.md` hypothesis *)
+Theorem C15_roundtrip_written_b :
+  forall K D ext : string,
+    canonicalb K = true -> canonical_dirb D = true -> ext = MD \/ ext = "" ->
+    from_rel_link_url (ref_url (to_rel_link_url K D) ext) D = K.
+Proof. exact RelPathLawsB.C15_roundtrip_written_b. Qed.
+Check C15_roundtrip_written_b :
+  forall K D ext : string,
+    canonicalb K = true -> canonical_dirb D = true -> ext = MD \/ ext = "" ->
+    from_rel_link_url (ref_url (to_rel_link_url K D) ext) D = K.
+Print Assumptions C15_roundtrip_written_b.
+
+Theorem C15_own_dir_written_b :
+  forall K ext : string,
+    canonicalb K = true -> ext = MD \/ ext = "" ->
+    from_rel_link_url (ref_url (to_rel_link_url K (key_parent K)) ext) (key_parent K) = K.
+Proof. exact RelPathLawsB.C15_own_dir_written_b. Qed.
+Check C15_own_dir_written_b :
+  forall K ext : string,
+    canonicalb K = true -> ext = MD \/ ext = "" ->
+    from_rel_link_url (ref_url (to_rel_link_url K (key_parent K)) ext) (key_parent K) = K.
+Print Assumptions C15_own_dir_written_b.
+
 (* resolved keys are normal forms; dependence on components only *)
 Theorem C15_resolve_idempotent :
   forall u D : string, normalize (from_rel_link_url u D) = from_rel_link_url u D.
@@ -108,13 +145,13 @@ Print Assumptions C15_resolve_shape.
 
 Theorem C15_resolve_components :
   forall u1 u2 D1 D2 : string,
-    components (trim_end_matches MD u1) = components (trim_end_matches MD u2) ->
+    components (strip_md u1) = components (strip_md u2) ->
     components D1 = components D2 ->
     from_rel_link_url u1 D1 = from_rel_link_url u2 D2.
 Proof. exact RelPathLaws.C15_resolve_components. Qed.
 Check C15_resolve_components :
   forall u1 u2 D1 D2 : string,
-    components (trim_end_matches MD u1) = components (trim_end_matches MD u2) ->
+    components (strip_md u1) = components (strip_md u2) ->
     components D1 = components D2 ->
     from_rel_link_url u1 D1 = from_rel_link_url u2 D2.
 Print Assumptions C15_resolve_components.
@@ -140,13 +177,35 @@ Check C15_to_rel_shape :
     join SEPS (repeat ".." (length ds') ++ ks').
 Print Assumptions C15_to_rel_shape.
 
-(* `.md` *)
+(* `.md`: exactly one extension is taken off *)
 Theorem C15_md :
-  forall u D : string, from_rel_link_url (u +++ MD) D = from_rel_link_url u D.
+  forall u D : string, from_rel_link_url (u +++ MD) D = join_normalized D u.
 Proof. exact RelPathLaws.C15_md. Qed.
 Check C15_md :
-  forall u D : string, from_rel_link_url (u +++ MD) D = from_rel_link_url u D.
+  forall u D : string, from_rel_link_url (u +++ MD) D = join_normalized D u.
 Print Assumptions C15_md.
+
+Theorem C15_md_once :
+  forall u D : string, ends_with MD u = false -> from_rel_link_url (u +++ MD) D = from_rel_link_url u D.
+Proof. exact RelPathLaws.C15_md_once. Qed.
+Check C15_md_once :
+  forall u D : string, ends_with MD u = false -> from_rel_link_url (u +++ MD) D = from_rel_link_url u D.
+Print Assumptions C15_md_once.
+
+Theorem C15_md_once_refuted :
+  exists u D, ends_with MD u = true /\ from_rel_link_url (u +++ MD) D <> from_rel_link_url u D.
+Proof. exact RelPathLaws.C15_md_once_refuted. Qed.
+Check C15_md_once_refuted :
+  exists u D, ends_with MD u = true /\ from_rel_link_url (u +++ MD) D <> from_rel_link_url u D.
+Print Assumptions C15_md_once_refuted.
+
+(* file name <-> key: every key is read back from the file it is written to *)
+Theorem C15_file_name_of_path :
+  forall k : string, key_from_file_name (to_path k) = k.
+Proof. exact RelPathLaws.C15_file_name_of_path. Qed.
+Check C15_file_name_of_path :
+  forall k : string, key_from_file_name (to_path k) = k.
+Print Assumptions C15_file_name_of_path.
 
 (* the repair R4 *)
 Theorem C15_fix_is_normalize :
